@@ -158,6 +158,8 @@ def cases(tier):
     for i in range(len(LISTREF)):
         for ctx in ('argv', 'list', 'file'):
             yield ('listref', i, ctx)
+    for i in range(len(UNINAME)):
+        yield ('uniname', i)
 
 
 def run(case) -> Result:
@@ -181,12 +183,22 @@ def run(case) -> Result:
         _unterminated(res, case)
     elif k == 'listref':
         _listref(res, case)
+    elif k == 'uniname':
+        _uniname(res, case)
     return res
 
 
 # a token that refers to a LIST symbol: only the naked token that is nothing but the reference is spliced element by element;
 # quoted or combined with anything else it is ONE string (elements joined by single spaces); hard quotes do not substitute
 #   (source token, elements it contributes to an argument list / list, or None if it contributes a single string given by [2], single string)
+# references to symbols whose names have letters of other scripts, in every string form (source, denotation)
+UNINAME = [
+    ('@[\u00e9]@', 'VAL'), ('"x @[gr\u00f6\u00dfe2]@ y"', 'x VAL y'), ('pre@[\u540d\u524d]@post', 'preVALpost'), ("'@[\u00e9]@'", '@[\u00e9]@'),
+    ('@[\u00e9]@@[x\u0663]@', 'VALVAL'), ('"@[\u00e9]@"\'@[\u00e9]@\'', None), (':> a @[\u00e9]@ b', 'a VAL b'), ('<<EOF\nline @[gr\u00f6\u00dfe2]@\nEOF', 'line VAL\n'),
+    ('"@[\u00e9 \u00e9]@"', '@[\u00e9 \u00e9]@'), ('@[\u00e9', '@[\u00e9'),
+]
+
+
 LISTREF = [
     ('@[LST]@', ['e1', 'e 2'], 'e1 e 2'),
     ('"@[LST]@"', None, 'e1 e 2'),
@@ -202,6 +214,32 @@ LISTREF = [
     ('"@[LL]@"', None, 'e1 e 2 z'),
     ('@[LL]@', ['e1', 'e 2', 'z'], 'e1 e 2 z'),
 ]
+
+
+def _uniname(res, case):
+    tok, den = UNINAME[case[1]]
+    if den is None:
+        return  # (mixed quoting: KF-C09-QUOTE)
+    pre = "[setup]\ndef string \u00e9 = VAL\ndef string gr\u00f6\u00dfe2 = VAL\ndef string \u540d\u524d = VAL\ndef string x\u0663 = VAL\n"
+    seen = {}
+
+    def hook(rec):
+        if rec['name'] == 'reader':
+            try:
+                with open(os.path.join(rec['cwd'], 'f.txt'), newline='') as f:
+                    seen['text'] = f.read()
+            except OSError as ex:
+                seen['text'] = 'ERR %s' % ex
+
+    case_ = pre + 'file f.txt = %s\nrun %% reader\n[act]\n' % tok
+    o, calls = _run_case(case_, hook)
+    got = seen.get('text')
+    res.n += 1
+    res.nontrivial += 1
+    res.outcomes[('uniname', o.ident)] += 1
+    if o.ident != 'PASS' or got != den:
+        res.violation(case, ['the string `%s` (symbols with names in other scripts, each with value VAL) denotes %r; the file holds %r, outcome %s / %s' % (
+            tok.replace('\n', '<NL>'), den, got, o.ident, ' / '.join(cli.stderr_lines(o.err)[-3:])[:300])], {'file': case_})
 
 
 def _listref(res, case):
